@@ -53,7 +53,8 @@ def is_sequence_type_restriction(st1: str, st2: str) -> bool:
     if not st1 or st1[0] == '{' or not st2 or st2[0] == '{':
         return False
     elif st2 in ('empty-sequence()', 'none') and \
-            (st1 in ('empty-sequence()', 'none') or st1.endswith(('?', '*'))):
+            (st1 in ('empty-sequence()', 'none') or st1.endswith(('?', '*'))
+             and not (st1.startswith('function(') and ') as ' in st1)):
         return True
 
     # check occurrences
@@ -61,7 +62,8 @@ def is_sequence_type_restriction(st1: str, st2: str) -> bool:
         if st2[-1] in '+*':
             return False
         elif st2[-1] == '?':
-            st2 = st2[:-1]
+            if not st2.startswith('function(') or ') as ' not in st2:
+                return False  # the empty sequence matches st2 but not st1
 
     elif st1[-1] == '+':
         st1 = st1[:-1]
